@@ -235,12 +235,16 @@ func runC11(c *Ctx) {
 	}
 	p, pc := 1, 2
 	if c.Thorough() {
-		p, pc = 2, 3
+		p, pc = 4, 6
+	}
+	pairP := 1
+	if c.Thorough() {
+		pairP = 2
 	}
 	calls := c11Calls()
 	c.Bound("single", fmt.Sprintf("every call %v x cause %v applied after the call blocked; P<=%d S<=1", calls, c11Causes, p))
 	c.Bound("racing", fmt.Sprintf("every call x cause applied by a concurrent task; all schedules P<=%d S<=1 T<=1", pc))
-	c.Bound("pairs", "every unordered pair of calls (excluding connect) blocked at once x connection-ending causes and cancel; P<=1")
+	c.Bound("pairs", "every unordered pair of calls (excluding connect) blocked at once x connection-ending causes and cancel; P<=1 (thorough: 2)")
 	for _, cl := range calls {
 		for _, cause := range c11Causes {
 			if cl.name == "connect" && (cause == "closed-before") {
@@ -254,14 +258,14 @@ func runC11(c *Ctx) {
 	}
 	// a link that no longer takes writes: the call is stuck inside (or fails in) Transport.Write, and a
 	// local Close is what the application has left to end the connection
-	c.Bound("bad-link", "every call (first step) on a link whose peer stopped reading (Write blocks) or whose writes fail while reads stay silent, ended by a local Close, applied after the call settled and by a racing task; P<=1")
+	c.Bound("bad-link", "every call (first step) on a link whose peer stopped reading (Write blocks) or whose writes fail while reads stay silent, ended by a local Close, applied after the call settled and by a racing task; P as for the single family")
 	for _, cl := range calls {
 		if cl.name == "connect" || cl.step > 0 {
 			continue
 		}
 		for _, link := range []string{"stalled", "write-fails"} {
-			run(fmt.Sprintf("C11/bad-link/%s/%s/local-close", link, cl.name), c11Cfg{calls: []c11Call{cl}, cause: "local-close", link: link, bound: vrt.Budget{P: 1, S: 1}})
-			run(fmt.Sprintf("C11/bad-link/%s/%s/local-close-racing", link, cl.name), c11Cfg{calls: []c11Call{cl}, cause: "local-close", link: link, concurrent: true, bound: vrt.Budget{P: 1, S: 1}})
+			run(fmt.Sprintf("C11/bad-link/%s/%s/local-close", link, cl.name), c11Cfg{calls: []c11Call{cl}, cause: "local-close", link: link, bound: vrt.Budget{P: p, S: 1}})
+			run(fmt.Sprintf("C11/bad-link/%s/%s/local-close-racing", link, cl.name), c11Cfg{calls: []c11Call{cl}, cause: "local-close", link: link, concurrent: true, bound: vrt.Budget{P: p, S: 1}})
 		}
 	}
 	for i, a := range calls {
@@ -270,7 +274,7 @@ func runC11(c *Ctx) {
 				continue
 			}
 			for _, cause := range []string{"cancel", "local-close", "peer-close", "malformed"} {
-				run(fmt.Sprintf("C11/pair/%s.%d+%s.%d/%s", a.name, a.step, b.name, b.step, cause), c11Cfg{calls: []c11Call{a, b}, cause: cause, bound: vrt.Budget{P: 1, S: 1}})
+				run(fmt.Sprintf("C11/pair/%s.%d+%s.%d/%s", a.name, a.step, b.name, b.step, cause), c11Cfg{calls: []c11Call{a, b}, cause: cause, bound: vrt.Budget{P: pairP, S: 1}})
 			}
 		}
 	}
